@@ -112,6 +112,16 @@ class JoinSetup:
         self.rkeys = [tuple(keyval(kinds[j], r[j]) for j in range(nk)) for r in rk]
         lkn = [f'k{j}' for j in range(nk)]
         rkn = lkn if names == 'same' else [f'j{j}' for j in range(nk)]
+        twin = case.get('twin') or ''
+        if twin:
+            # keys BY NAME on tables where a column whose name merely SANITISES to the requested name
+            # stands BEFORE the column carrying exactly that name (see twin_join_cases)
+            if mode != 'name':
+                raise AssertionError('twin cases give their keys by name')
+            off = case.get('twin_off', 0)
+            lpairs = [TWIN_NAME_PAIRS[(j + off) % len(TWIN_NAME_PAIRS)] for j in range(nk)]
+            rpairs = lpairs if names == 'same' else [TWIN_NAME_PAIRS_R[(j + off) % len(TWIN_NAME_PAIRS_R)] for j in range(nk)]
+            lkn, rkn = [p[1] for p in lpairs], [p[1] for p in rpairs]
         lpn = [f'p{j}' for j in range(case['pl'])] if names == 'same' else [f'lp{j}' for j in range(case['pl'])]
         rpn = [f'p{j}' for j in range(case['pr'])] if names == 'same' else [f'rp{j}' for j in range(case['pr'])]
         lpay = [[self.marker('L', i, j) for i in range(len(lk))] for j in range(case['pl'])]
@@ -132,6 +142,19 @@ class JoinSetup:
             self.lnames, self.rnames = lkn + lpn, rpn + rkn
             self.lrows = [self.lkeys[i] + tuple(lpay[j][i] for j in range(case['pl'])) for i in range(len(lk))]
             self.rrows = [tuple(rpay[j][i] for j in range(case['pr'])) + self.rkeys[i] for i in range(len(rk))]
+            if 'L' in twin:
+                # decoys first: ['Region ID', 'region_id', payload...]; their values are the key patterns
+                # shifted cyclically, so pairing on a decoy gives other row pairs than pairing on the key
+                dec = [tuple(keyval(kinds[j], decoy_pattern(r[j], 1)) for j in range(nk)) for r in lk]
+                lcols = [mk_col([d[j] for d in dec], lpairs[j][0], kinds[j]) for j in range(nk)] + lcols
+                self.lnames = [p[0] for p in lpairs] + self.lnames
+                self.lrows = [dec[i] + self.lrows[i] for i in range(len(lk))]
+            if 'R' in twin:
+                dec = [tuple(keyval(kinds[j], decoy_pattern(r[j], 2)) for j in range(nk)) for r in rk]
+                npr = case['pr']
+                rcols = rcols[:npr] + [mk_col([d[j] for d in dec], rpairs[j][0], kinds[j]) for j in range(nk)] + rcols[npr:]
+                self.rnames = self.rnames[:npr] + [p[0] for p in rpairs] + self.rnames[npr:]
+                self.rrows = [self.rrows[i][:npr] + dec[i] + self.rrows[i][npr:] for i in range(len(rk))]
         self.L = Table(lcols)
         self.R = Table(rcols)
         ector = case.get('empty_ctor')
@@ -245,7 +268,7 @@ def check_join_output(pid, op, res, want_rows, want_names, fails, descr, tag='')
 
 def join_descr(case, op, expect_src="expect='many_to_many'"):
     return (f"{op}({expect_src}) kinds={case['kinds']} left keys={case['lk']} right keys={case['rk']} "
-            f"mode={case['mode']} names={case['names']} payload={case['pl']}/{case['pr']}")
+            f"mode={case['mode']} names={case['names']} payload={case['pl']}/{case['pr']}" + twin_descr(case))
 
 
 def seqs(pool, max_rows, min_rows=0):
@@ -274,7 +297,71 @@ POOL1_3V = [(None,), (0,), (1,), (2,)]
 
 def hc_tag(case):
     """Failure-class suffix for cases whose key values collide in hash."""
+    if case.get('twin'):
+        return ':key-named-like-an-earlier-sanitised-twin'
     return ':hash-colliding-keys' if any(k in HC_KINDS for k in case.get('kinds', ())) else ''
+
+
+# ---- keys by name next to a column whose name only sanitises to the requested name ----------------
+# (decoy name, exact key name): 'Region ID' -> region_id, 'A' -> a, 'Key-3' -> key_3 under the
+# documented accessor sanitisation; the key is requested by the EXACT stored name of the second column.
+TWIN_NAME_PAIRS = [('Region ID', 'region_id'), ('A', 'a'), ('Key-3', 'key_3')]
+TWIN_NAME_PAIRS_R = [('Store ID', 'store_id'), ('B', 'b'), ('Key 4', 'key_4')]
+_CYC3 = [None, 0, 1]
+TWIN_CONFIGS = [
+    # (names, n_left_payload, n_right_payload, bare single key)
+    ('same', 1, 1, True), ('diff', 0, 1, False), ('same', 0, 0, False), ('diff', 2, 0, True), ('same', 1, 2, False), ('diff', 1, 1, True),
+]
+
+
+def decoy_pattern(p, shift):
+    """Key pattern of the decoy column: the cycle None -> 0 -> 1 -> None applied `shift` times (the two
+    sides use different shifts, so pairing decoy with decoy differs from pairing key with key too)."""
+    return _CYC3[(_CYC3.index(p) + shift) % 3] if p in _CYC3 else p
+
+
+def twin_descr(case):
+    tw = case.get('twin')
+    if not tw:
+        return ''
+    off = case.get('twin_off', 0)
+    nk = len(case['kinds'])
+    lp = [TWIN_NAME_PAIRS[(j + off) % 3] for j in range(nk)]
+    rp = lp if case['names'] == 'same' else [TWIN_NAME_PAIRS_R[(j + off) % 3] for j in range(nk)]
+    parts = []
+    if 'L' in tw:
+        parts.append(f'left columns {[p[0] for p in lp] + [p[1] for p in lp]} + payload, left_on={[p[1] for p in lp]}')
+    if 'R' in tw:
+        parts.append(f'right columns payload + {[p[0] for p in rp] + [p[1] for p in rp]}, right_on={[p[1] for p in rp]}')
+    return ' [a column that only sanitises to the key name stands before the exactly named key column: ' + '; '.join(parts) + ']'
+
+
+def twin_blocks(tier, heavy=False):
+    """(label, pool, max_left, max_right, kinds-list): every pair of key-row sequences x twin side
+    (left / right / both); kind, name offset and (names, payload, bare) configuration rotate."""
+    if tier == 'quick':
+        if heavy:
+            return [('1key-twin', POOL1, 3, 3, [['int'], ['str']]),
+                    ('2key-twin', POOL2_3, 2, 2, [['int', 'int'], ['str', 'int']]),
+                    ('3key-twin', POOL3_4, 1, 2, [['int', 'int', 'int']])]
+        return [('1key-twin', POOL1, 3, 3, [['int'], ['str']]),
+                ('2key-twin', POOL2_4, 2, 2, [['int', 'int'], ['str', 'int']]),
+                ('3key-twin', POOL3_4, 2, 2, [['int', 'int', 'int']])]
+    return [('1key-twin', POOL1, 4, 3, KINDS1),
+            ('2key-twin', POOL2_5, 2, 3, KINDS2),
+            ('3key-twin', POOL3_4, 2, 2, KINDS3)]
+
+
+def twin_join_cases(tier, heavy=False):
+    for label, pool, ml, mr, kinds_list in twin_blocks(tier, heavy):
+        idx = 0
+        for lk in seqs(pool, ml):
+            for rk in seqs(pool, mr):
+                for tw in ('L', 'R', 'LR'):
+                    idx += 1
+                    names, pl, pr, bare = TWIN_CONFIGS[idx % len(TWIN_CONFIGS)]
+                    yield {'block': label, 'kinds': kinds_list[(idx // 3) % len(kinds_list)], 'lk': lk, 'rk': rk, 'mode': 'name',
+                           'names': names, 'pl': pl, 'pr': pr, 'bare': bare, 'twin': tw, 'twin_off': (idx // 7) % 3}
 
 
 def _cfg(i):
@@ -365,7 +452,11 @@ def join_cases(tier, heavy=False):
 def join_bound(tier, heavy=False):
     return {'blocks': [{'label': b[0], 'key_tuples_in_pool': len(b[1]), 'max_left_rows': b[2], 'max_right_rows': b[3],
                         'kinds': b[4], 'configs_per_pair': b[5]} for b in join_blocks(tier, heavy)],
-            'configs(mode,names,left_payload,right_payload)': JOIN_CONFIGS}
+            'configs(mode,names,left_payload,right_payload)': JOIN_CONFIGS,
+            'twin_blocks(keys by name, a sanitised-twin column before the exactly named key column; side L/R/LR)':
+                [{'label': b[0], 'key_tuples_in_pool': len(b[1]), 'max_left_rows': b[2], 'max_right_rows': b[3], 'kinds': b[4]}
+                 for b in twin_blocks(tier, heavy)],
+            'twin_names(decoy, key)': TWIN_NAME_PAIRS + TWIN_NAME_PAIRS_R}
 
 
 def join_signature(case):
@@ -378,7 +469,7 @@ def join_signature(case):
             len(set(lk)) < len(lk), len(set(rk)) < len(rk),
             any(None in k for k in lk + rk),
             any(k not in rk for k in lk), any(k not in lk for k in rk),
-            any(k in rk for k in lk))
+            any(k in rk for k in lk)) + ((case['twin'], case.get('twin_off', 0)) if case.get('twin') else ())
 
 
 # --------------------------------------------------------------------------------------
@@ -629,6 +720,8 @@ def agg_signature(case):
         return ('repeat', case['target'], case['variant'], len(case['steps']), len(case['steps'][0][0]))
     if case.get('op') == 'precision':
         return ('precision', case['family'], case['layout'], len(case['vals']), sum(v is None for v in case['vals']))
+    if case.get('op') == 'exactmean':
+        return ('exactmean', case['family'], case['layout'], tuple(case['idx']))
     nk = case['nk']
     keys = [tuple(r[:nk]) for r in case['rows']]
     vals = [r[nk] for r in case['rows']]
@@ -901,6 +994,200 @@ def precision_groups(case):
     keys = [0] * n if case['layout'] == 'one-group' else [i % 2 for i in range(n)]
     order, grows = group_by_hand([(k,) for k in keys])
     return keys, grows
+
+
+# ---- custom apply functions that treat their argument as a SEQUENCE --------------------------------
+# The statement hands apply "each group's values (None included) in row order": a function written for a
+# list - len(), indexing, slicing, reversed(), two passes over the same argument - must work and give
+# what it gives on the plain Python list of the group's values.
+def _ap_len(vals):
+    return len(vals)
+
+
+def _ap_ends(vals):
+    return f'{vals[0]!r}..{vals[-1]!r}'
+
+
+def _ap_mid(vals):
+    return repr(vals[len(vals) // 2])
+
+
+def _ap_slice(vals):
+    return repr(list(vals[1:])) + repr(list(vals[::-1]))
+
+
+def _ap_reversed(vals):
+    return repr(list(reversed(vals)))
+
+
+def _ap_two_pass_variance(vals):
+    n, total = 0, 0.0
+    for v in vals:                     # pass 1: mean of the non-None values
+        if v is not None:
+            n += 1
+            total += v
+    if n < 2:
+        return None
+    mu = total / n
+    ss = 0.0
+    for v in vals:                     # pass 2: over the SAME argument
+        if v is not None:
+            ss += (v - mu) ** 2
+    return ss / (n - 1)
+
+
+def _ap_twice(vals):
+    a = [x for x in vals]
+    b = [x for x in vals]
+    return f'{a!r}|{b!r}'
+
+
+def _ap_len_then_iter(vals):
+    n = len(vals)
+    return f'{n}:{[x for x in vals]!r}:{sum(1 for x in vals if x is None)}'
+
+
+# name -> (function, capability class used in failure keys)
+SEQ_APPLY = {
+    'len': (_ap_len, 'len'), 'ends': (_ap_ends, 'index'), 'mid': (_ap_mid, 'index'), 'slice': (_ap_slice, 'index'),
+    'reversed': (_ap_reversed, 'reversed'), 'two_pass_variance': (_ap_two_pass_variance, 're-iterate'),
+    'twice': (_ap_twice, 're-iterate'), 'len_then_iter': (_ap_len_then_iter, 're-iterate'),
+}
+SEQ_APPLY_NAMES = list(SEQ_APPLY)
+
+
+def seq_apply_cases(tier, op):
+    q = tier == 'quick'
+    blocks = [(1, POOL1, 1, 3 if q else 4), (2, POOL2_3, 1, 2 if q else 3), (0, POOL0, 1, 3 if q else 4)]
+    for nk, pool, lo, hi in blocks:
+        idx = 0
+        for rows in agg_tables(nk, pool, hi, lo):
+            idx += 1
+            yield {'op': 'seqapply', 'target': op, 'block': 'seq-apply', 'nk': nk, 'rows': rows, 'mode': MODES[idx % 3],
+                   'aggs': [], 'apply': False, 'scalar_over': bool((idx // 3) % 2)}
+
+
+class SeqApplySetup(AggSetup):
+    """AggSetup whose apply dict holds every SEQ_APPLY function (wrapped so that the function that was
+    running when a call raised, and the argument types, are known)."""
+
+    def __init__(self, case):
+        super().__init__(case)
+        self.running = [None]
+
+        def wrap(name, fn):
+            def run(vals):
+                self.running[0] = name
+                out = fn(vals)
+                self.running[0] = None
+                return out
+            return run
+        self.kwargs = {'apply': {f'f_{name}': (self.vspec, wrap(name, fn)) for name, (fn, _) in SEQ_APPLY.items()}}
+
+
+def seq_apply_expected(op, keys, vals):
+    """{column name: expected values} (per group for aggregate, per row for window)."""
+    order, grows = group_by_hand(keys)
+    group_of = [next(g for g, k in enumerate(order) if k == key) for key in keys]
+    out = {}
+    for name, (fn, _) in SEQ_APPLY.items():
+        per_group = [fn([vals[i] for i in rows]) for rows in grows]
+        out[f'f_{name}'] = per_group if op == 'aggregate' else [per_group[g] for g in group_of]
+    return out
+
+
+def check_seq_apply(pid, op, site, res, expected, fails, descr):
+    for name, (fn, cap) in SEQ_APPLY.items():
+        col = out_column(res, f'f_{name}')
+        want = expected[f'f_{name}']
+        if col is None:
+            fails.append(Fail(f'{pid}:{site}:apply:missing-column', f'{descr}: no output column f_{name}', f'f_{name}', list(res.column_names())))
+            continue
+        ok = len(col) == len(want) and all(close(a, b) if isinstance(b, float) or b is None else a == b for a, b in zip(col, want))
+        if not ok:
+            fails.append(Fail(f'{pid}:{site}:apply-sequence-argument:{cap}:value',
+                              f'{descr}: apply function {name!r} (uses its argument as a list: {cap}) gives {col!r}; on the plain list of each '
+                              f"group's values (None included, row order) it gives {want!r}", want, col, f'{pid}:{op}:apply'))
+
+
+# ---- mean on values that do not survive a conversion to double -------------------------------------
+from fractions import Fraction          # noqa: E402
+from decimal import Decimal             # noqa: E402
+
+EXACT_MEAN_FAMILIES = [
+    ('bigint', [1, 2 ** 53 + 1, 2 ** 53 + 3, -(2 ** 53 + 1)]),
+    ('fraction', [Fraction(1, 3), Fraction(1, 7), Fraction(5, 2)]),
+    ('decimal', [Decimal('0.1'), Decimal('0.2'), Decimal('1.15')]),
+    ('float', [0.1, 0.2, 2.5]),
+]
+EXACT_MEAN_POOLS = dict(EXACT_MEAN_FAMILIES)
+MEAN_REL_TOL = 1e-12
+
+
+def exactmean_cases(tier):
+    hi = 3 if tier == 'quick' else 4
+    for fam, pool in EXACT_MEAN_FAMILIES:
+        choices = [None] + list(range(len(pool)))
+        for n in range(1, hi + 1):
+            for combo in itertools.product(choices, repeat=n):
+                for layout in ('one-group', 'two-groups'):
+                    if layout == 'two-groups' and n < 2:
+                        continue
+                    yield {'op': 'exactmean', 'family': fam, 'layout': layout, 'idx': list(combo)}
+
+
+def exactmean_vals(case):
+    pool = EXACT_MEAN_POOLS[case['family']]
+    return [None if i is None else pool[i] for i in case['idx']]
+
+
+def exactmean_groups(case):
+    n = len(case['idx'])
+    keys = [0] * n if case['layout'] == 'one-group' else [i % 2 for i in range(n)]
+    order, grows = group_by_hand([(k,) for k in keys])
+    return keys, grows
+
+
+def python_mean(vals):
+    """sum / len over the non-None values, in the element type, as Python computes it ('skip' when
+    Python itself cannot)."""
+    nn = [v for v in vals if v is not None]
+    if not nn:
+        return None
+    try:
+        return sum(nn) / len(nn)
+    except Exception:
+        return 'skip'
+
+
+def mean_verdict(family, got, vals):
+    """None when `got` is the mean of the non-None `vals`; else (class, expected).  int / Fraction /
+    Decimal: exact whenever Python's `/` is exact for the group, else relative 1e-12; floats: relative 1e-12."""
+    want = python_mean(vals)
+    if isinstance(want, str):
+        return None
+    if want is None or got is None:
+        return None if (want is None and got is None) else ('none-mismatch', want)
+    nn = [v for v in vals if v is not None]
+    if isinstance(got, bool):
+        return ('result-type', want)
+    if family in ('bigint', 'float'):
+        if not isinstance(got, (int, float, Fraction)) or (isinstance(got, float) and got != got):
+            return ('result-type', want)
+        exact = sum(Fraction(v) for v in nn) / len(nn)
+        if family == 'bigint' and Fraction(want) == exact:
+            return None if Fraction(got) == exact else ('inexact', want)
+        return None if abs(Fraction(got) - exact) <= Fraction(MEAN_REL_TOL) * abs(exact) else ('imprecise', want)
+    kind = Fraction if family == 'fraction' else Decimal
+    if not isinstance(got, kind):
+        try:
+            near = abs(Fraction(got) - Fraction(want)) <= Fraction(MEAN_REL_TOL) * abs(Fraction(want))
+        except Exception:
+            near = False
+        return ('result-type' if near and Fraction(got) == Fraction(want) else 'inexact', want)
+    if want * len(nn) == sum(nn):                     # Python's division was exact
+        return None if got == want else ('inexact', want)
+    return None if abs(got - want) <= kind('1e-12') * abs(want) else ('imprecise', want)
 
 
 # --------------------------------------------------------------------------------------
